@@ -261,6 +261,24 @@ def run_resume(ctx: Ctx):
             ctx.sample({"leg": "ko_resume", "cfg": cfg})
         jobs.append((i, cfg, seed, True if i % 3 == 0 else None))
     ctx.pmap(_one, jobs)
+    if ctx.tier == "thorough":
+        # REAL worker processes (no virtual scheduler): a slice with sampled positions
+        real = []
+        for i in range(16):
+            cfg = sdl.gen_cfg(ctx.rng, max_w=3)
+            if cfg["W"] == 0:
+                cfg["W"], cfg["pf"], cfg["persistent"] = 2, 2, False
+                if sdl.is_iter(cfg):
+                    cfg["sizes"] = (cfg["sizes"] * 3)[:2]
+            cfg["real_mp"] = True
+            real.append((i, cfg, ctx.rng.randrange(1 << 30), None))
+        ctx.pmap(_one_real, real, nproc=6)
+
+
+def _one_real(ctx: Ctx, job):
+    i, cfg, seed, _ = job
+    ctx.count("real_mp")
+    check_cfg(ctx, cfg, seed, every_pos=False)
 
 
 
